@@ -245,6 +245,21 @@ def factory_closure(prog: Program, fac: FuncInfo) -> FuncInfo:
             names |= {x.id for x in ast.walk(ex) if isinstance(x, ast.Name)}
     hit = [f for f in inner if f.name in names]
     if len(hit) != 1:
+        # the returned value may be assembled over several statements / branches: follow every reaching definition
+        seen: set[str] = set()
+        work = [(x, r) for r in flow.cfg.returns() if r.ast.value is not None for x in ast.walk(r.ast.value) if isinstance(x, ast.Name)]
+        reach: set[str] = set()
+        while work and len(seen) < 200:
+            nm, at = work.pop()
+            reach.add(nm.id)
+            for d in flow.reaching(at, nm.id):
+                key = f"{d.id}"
+                if key in seen or d.value is None or d.kind not in ("assign", "unpack"):
+                    continue
+                seen.add(key)
+                work += [(x, d.node) for x in ast.walk(d.value) if isinstance(x, ast.Name) and isinstance(x.ctx, ast.Load)]
+        hit = [f for f in inner if f.name in reach]
+    if len(hit) != 1:
         raise AnalysisError(f"{fac.qual}: cannot tell which of its inner functions {sorted(f.name for f in inner)} is the one it returns")
     return hit[0]
 
